@@ -8,6 +8,7 @@ import (
 	"strings"
 
 	"github.com/go-json-experiment/json"
+	jsonv1 "github.com/go-json-experiment/json/v1"
 	"pgregory.net/rapid"
 
 	"verif/harness/cov"
@@ -20,8 +21,16 @@ var rec = cov.New()
 
 // Case is a type and a chain of texts.
 type Case struct {
-	Desc  *tv.Desc `json:"desc"`
-	Texts [][]byte `json:"texts"`
+	Desc   *tv.Desc `json:"desc"`
+	Texts  [][]byte `json:"texts"`
+	AnyLen bool     `json:"any_len,omitempty"` // v1.UnmarshalArrayFromAnyLength(true)
+}
+
+func (c *Case) opts() []json.Options {
+	if c.AnyLen {
+		return []json.Options{jsonv1.UnmarshalArrayFromAnyLength(true)}
+	}
+	return nil
 }
 
 func genCase(t *rapid.T) Case {
@@ -38,11 +47,11 @@ func genCase(t *rapid.T) Case {
 		cfg.Tags = true // names / omit options / case options (no string or format)
 		cfg.Leaves = []string{"bool", "string", "bytes", "bytearr", "bool", "string"}
 	}
-	c := Case{Desc: tv.GenDesc(t, cfg)}
+	c := Case{Desc: tv.GenDesc(t, cfg), AnyLen: rapid.IntRange(0, 3).Draw(t, "anylen") == 0}
 	stripStringOpt(c.Desc)
 	k := rapid.IntRange(2, 4).Draw(t, "chain")
 	for i := 0; i < k; i++ {
-		c.Texts = append(c.Texts, tv.GenJSON(t, c.Desc, tv.JSONCfg{Nulls: true, Extra: true, PresentPc: rapid.SampledFrom([]int{40, 60, 90}).Draw(t, "present")}))
+		c.Texts = append(c.Texts, tv.GenJSON(t, c.Desc, tv.JSONCfg{Nulls: true, Extra: true, AnyLen: c.AnyLen, PresentPc: rapid.SampledFrom([]int{40, 60, 90}).Draw(t, "present")}))
 	}
 	return c
 }
@@ -74,15 +83,34 @@ func Run(c Case) error {
 	}
 	rec.Eval()
 	sig := c.Desc.Sig()
+	// Each text must be acceptable on its own (into a fresh value); otherwise
+	// the chain proves nothing.
+	for _, txt := range c.Texts {
+		if err := json.Unmarshal(txt, reflect.New(typ).Interface(), c.opts()...); err != nil {
+			rec.Class("text-rejected-alone(not compared)")
+			return nil
+		}
+	}
 	// sequential run
 	seq := reflect.New(typ)
+	conflict := anyConflictPossible(c.Desc, c.Texts)
 	for i, txt := range c.Texts {
 		var uerr error
-		if p := rt.Guard(func() { uerr = json.Unmarshal(txt, seq.Interface()) }); p != nil {
+		if p := rt.Guard(func() { uerr = json.Unmarshal(txt, seq.Interface(), c.opts()...) }); p != nil {
 			return fmt.Errorf("Unmarshal panicked on text %d %s: %v\ntype %s", i, txt, p, sig)
 		}
 		if uerr != nil {
-			rec.Class("chain-fails(not compared)")
+			if !conflict {
+				// Every text is acceptable alone and no interface-typed position is
+				// mentioned twice (the only documented way an earlier value can make
+				// a later text unacceptable): the destination must be replaced or merged.
+				var ts []string
+				for _, t := range c.Texts {
+					ts = append(ts, string(t))
+				}
+				return fmt.Errorf("text %d is accepted by a zero value but rejected after the earlier texts although no interface-typed position is revisited: %v\ntype %s\ntexts %q", i, uerr, sig, ts)
+			}
+			rec.Class("chain-fails-on-interface-conflict(not compared)")
 			return nil
 		}
 	}
@@ -102,7 +130,7 @@ func Run(c Case) error {
 		return nil
 	}
 	fresh := reflect.New(typ)
-	if err := json.Unmarshal(cur, fresh.Interface()); err != nil {
+	if err := json.Unmarshal(cur, fresh.Interface(), c.opts()...); err != nil {
 		// the merged text can be unacceptable although each step succeeded only
 		// through interface kind conflicts, which the statement excludes
 		rec.Class("merged-text-rejected(not compared)")
@@ -136,7 +164,76 @@ func Run(c Case) error {
 		}
 		return err
 	}
+	// absolute oracle: the reference model of Unmarshal-into-zero applied to the merged text
+	if mn, perr := ref.Parse(cur, ref.Opt{}); perr == nil {
+		if want, ok := tv.RefDecode(c.Desc, cur, mn, tv.DecodeOpt{AnyLen: c.AnyLen}); ok {
+			rec.Class("reference-decode-compared")
+			if d := tv.Equal(seq.Elem(), want, tv.EqOpt{}); d != "" {
+				var ts []string
+				for _, t := range c.Texts {
+					ts = append(ts, string(t))
+				}
+				return fmt.Errorf("result differs from the reference decoding of the merged text at %s\ntype %s\ntexts %q\nmerged %s", d, sig, ts, cur)
+			}
+		} else {
+			rec.Class("reference-decode-not-applicable")
+		}
+	}
 	return nil
+}
+
+// anyConflictPossible reports whether some interface-typed position that is
+// not below an array is given a non-null value by two or more texts.
+func anyConflictPossible(d *tv.Desc, texts [][]byte) bool {
+	count := map[string]int{}
+	for _, txt := range texts {
+		root, err := ref.Parse(txt, popt)
+		if err != nil {
+			return true
+		}
+		seen := map[string]bool{}
+		var walk func(d *tv.Desc, n *ref.Node, ptr string)
+		walk = func(d *tv.Desc, n *ref.Node, ptr string) {
+			for d != nil && d.K == "ptr" {
+				d = d.Elem
+			}
+			if d == nil || n.Kind == 'n' {
+				return
+			}
+			if d.K == "any" {
+				seen[ptr] = true
+				return // everything below lives inside the interface value
+			}
+			if n.Kind != '{' {
+				return // arrays reset their elements: nothing below can conflict with earlier texts
+			}
+			for _, m := range n.Members {
+				var c *tv.Desc
+				switch d.K {
+				case "struct":
+					c, _ = tv.FieldFor(d, m.Name.Str)
+					if c == nil {
+						if fb := tv.Fallback(d); fb != nil && fb.K == "map" {
+							c = fb.Elem
+						}
+					}
+				case "map":
+					c = d.Elem
+				}
+				walk(c, m.Value, ptr+"/"+m.Name.Str)
+			}
+		}
+		walk(d, root, "")
+		for p := range seen {
+			count[p]++
+		}
+	}
+	for _, n := range count {
+		if n > 1 {
+			return true
+		}
+	}
+	return false
 }
 
 // ---- bounded-exhaustive catalogue -------------------------------------------
@@ -168,7 +265,7 @@ var catalogue = []*tv.Desc{
 
 // shapes of JSON values placed at the top level and under one member "k" / "1".
 var shapes = []string{`null`, `0`, `7`, `"s"`, `true`, `[]`, `[1]`, `[1,2]`, `[{"P":1},{"Q":2}]`, `[[1],[2,3]]`, `[null,1]`, `{}`, `{"P":1}`, `{"Q":2}`, `{"P":3,"Q":4}`, `{"P":null}`,
-	`{"k":1}`, `{"k":{"P":1}}`, `{"k":{"Q":2}}`, `{"k":[1,2]}`, `{"k":[3]}`, `{"k":null}`, `{"j":{"P":5}}`, `{"1":[1,2]}`, `{"1":[3]}`, `{"1":null}`, `"AQI="`, `""`, `{"k":{"k":{"P":1}}}`, `{"k":{"k":{"Q":2}}}`}
+	`{"k":1}`, `{"k":{"P":1}}`, `{"k":{"Q":2}}`, `{"k":[1,2]}`, `{"k":[3]}`, `{"k":null}`, `{"j":{"P":5}}`, `{"1":[1,2]}`, `{"1":[3]}`, `{"1":null}`, `"AQI="`, `""`, `{"k":{"k":{"P":1}}}`, `{"k":{"k":{"Q":2}}}`, `[{"Q":7}]`, `[{"P":8},7]`}
 
 func enumCatalogue(e *rt.Env, yield func(Case) bool) {
 	var idx, total int64
